@@ -190,7 +190,10 @@ impl<'a> Tr<'a> {
                 Ok(Val { s: format!("({})", vec![v.s.clone(); n].join(", ")), ty: Ty::Tuple(vec![v.ty; n]) })
             }
             Expr::Index(ix) if matches!(self.pure(&ix.expr, env, None).map(|b| b.ty), Ok(Ty::Slice(_))) => {
-                // `s[i]` on a slice of integers (Rust panics out of range: 0 here)
+                // `s[i]` on a list panics out of range: only translated where the check can be sequenced (statement level)
+                if true {
+                    return Err(unsupported(e, "slice index in a position where its bounds check cannot be sequenced (inside a closure or a pure operand): bind it with `let` first"));
+                }
                 let b = self.pure(&ix.expr, env, None)?;
                 let elem = match &b.ty {
                     Ty::Slice(t) => (**t).clone(),
